@@ -5505,14 +5505,14 @@ class DfaCompileCtx:
             for transition in state.transitions:
                 if transition.is_fallthrough:
                     symbols = transition.on_values
-                elif DFTransition.End in transition.on_values:
+                elif DFTransition.End in transition.on_values and not transition.error_handling:
                     # a matched `end` consumes nothing either: end() goes on from its target with end-of-input still ahead
                     symbols = [DFTransition.End]
                 else:
                     continue
 
                 def stays_in_place(t):
-                    return t.is_fallthrough or (symbols == [DFTransition.End] and DFTransition.End in t.on_values)
+                    return t.is_fallthrough or (symbols == [DFTransition.End] and DFTransition.End in t.on_values and not t.error_handling)
 
                 visited = set()
                 def leads_to(transition):
@@ -6510,8 +6510,9 @@ class CodegenCtx:
             # a taken end transition that isn't a fallthrough (those re-dispatch on their own) leaves us in its target
             if not unconditional_end_transition.is_fallthrough:
                 final_state = unconditional_end_transition.target
-                # (an Else that stands for end-of-input is a data pattern running into it: that one does not match)
-                matched_end_pattern = DFTransition.End in unconditional_end_transition.on_values
+                # (an Else that stands for end-of-input is a data pattern running into it: that one does not match; neither does the
+                # error path of a wait, which lists End only to send it back to the start)
+                matched_end_pattern = DFTransition.End in unconditional_end_transition.on_values and not unconditional_end_transition.error_handling
                 # ... unless one of its actions (a break under an if, ...) sent us somewhere else instead
                 for action in unconditional_end_transition.actions:
                     for subaction in action.all_subactions():
